@@ -79,7 +79,43 @@ class C12Oracle(worldprop.Oracle):
                             self.fail(idx, "derived document shares a record object with a source", call=op[0])
 
 
+    def subclass_documents(self, idx):
+        """add_bundle(document) converts the document into a new bundle — also when the document is an instance of a
+        user-defined subclass of ProvDocument (applications do subclass it): afterwards the two sides are independent"""
+        import prov.model as M
+
+        class LabDocument(M.ProvDocument):
+            pass
+        for cls in (M.ProvDocument, LabDocument):
+            src = cls()
+            src.add_namespace("ex", "http://example.org/")
+            src.entity("ex:e", {"ex:k": 1})
+            src.activity("ex:a")
+            tgt = M.ProvDocument()
+            tgt.add_namespace("ex", "http://example.org/")
+            before = observable_doc(src)
+            try:
+                tgt.add_bundle(src, "ex:attached")
+            except Exception as e:
+                self.fail(idx, "add_bundle(document) raised", cls=cls.__name__, exc=repr(e)[:200])
+                continue
+            if observable_doc(src) != before:
+                self.fail(idx, "add_bundle(document) changed the document it was given", cls=cls.__name__)
+            b = list(tgt.bundles)[0]
+            if b is src or b._namespaces is src._namespaces or any(r1 is r2 for r1 in b._records for r2 in src._records):
+                self.fail(idx, "add_bundle(document) attached the document itself instead of a new bundle", cls=cls.__name__)
+            tb = observable_doc(tgt)
+            src.entity("ex:late"); src.add_namespace("zz", "http://zz.test/"); src.set_default_namespace("http://dflt.test/")
+            if observable_doc(tgt) != tb:
+                self.fail(idx, "changing a document after add_bundle(document) changed the receiving document", cls=cls.__name__)
+            sb = observable_doc(src)
+            b.agent("ex:in-bundle"); b.add_namespace("yy", "http://yy.test/")
+            if observable_doc(src) != sb:
+                self.fail(idx, "changing the bundle made by add_bundle(document) changed the source document", cls=cls.__name__)
+
     def finish(self, ops):
+        if len(ops) % 7 == 0:
+            self.subclass_documents(len(ops))
         # record.copy(): an equal record that shares no mutable state with its source
         import prov.model as M
         idx = len(ops)
